@@ -133,6 +133,7 @@ class _Subst(ast.NodeTransformer):
         self.env = env
         self.attrs = attrs
         self.shadow = []
+        self.dotted = any('.' in k for k in env)
 
     def _shadowed(self, name):
         return any(name in s for s in self.shadow)
@@ -144,6 +145,12 @@ class _Subst(ast.NodeTransformer):
         return node
 
     def visit_Attribute(self, node):
+        if isinstance(node.ctx, ast.Load) and self.dotted and \
+                isinstance(node.value, ast.Name) and not self._shadowed(
+                    node.value.id):
+            k = node.value.id + '.' + node.attr
+            if k in self.env:
+                return copy.deepcopy(self.env[k])
         if self.attrs and isinstance(node.ctx, ast.Load):
             try:
                 t = ast.unparse(node)
@@ -231,7 +238,8 @@ class Enumerator:
 
     def __init__(self, prog, finfo, env0=None, inline=None, writes=None,
                  max_paths=60000, max_depth=3, loop_iters=(0, 1),
-                 handler_paths=True, track_attrs=True):
+                 handler_paths=True, track_attrs=True, quantifiers=True,
+                 comps=False, split_returns=False):
         self.prog = prog
         self.finfo = finfo
         self.inline = inline
@@ -241,6 +249,9 @@ class Enumerator:
         self.loop_iters = loop_iters
         self.handler_paths = handler_paths
         self.track_attrs = track_attrs
+        self.quantifiers = quantifiers
+        self.comps = comps
+        self.split_returns = split_returns
         self.defs = {}
         self._n = 0
         self._stack = []
@@ -270,8 +281,41 @@ class Enumerator:
         return X().visit(copy.deepcopy(expr))
 
     # ----------------------------------------------------------------- run
+    def const_env(self, finfo):
+        """Module- and class-level immutable constants visible in finfo,
+        as an initial environment (hoisted keyword tuples, prefixes...)."""
+        cache = self.__dict__.setdefault('_cenv', {})
+        if finfo.qual in cache:
+            return dict(cache[finfo.qual])
+        local = set()
+        a = finfo.node.args
+        for x in a.posonlyargs + a.args + a.kwonlyargs:
+            local.add(x.arg)
+        if a.vararg:
+            local.add(a.vararg.arg)
+        if a.kwarg:
+            local.add(a.kwarg.arg)
+        for n in ast.walk(finfo.node):
+            if isinstance(n, ast.Name) and isinstance(n.ctx, (ast.Store,
+                                                              ast.Del)):
+                local.add(n.id)
+        out = {}
+        for nm, lit in self.prog.module_constants(finfo.module).items():
+            if nm not in local:
+                out[nm] = lit
+        if finfo.cls is not None and finfo.params and not finfo.is_static:
+            recv = finfo.params[0]
+            for nm, lit in self.prog.class_constants(finfo.cls.qual).items():
+                out['%s.%s' % (recv, nm)] = lit
+                if finfo.cls.name not in local:
+                    out['%s.%s' % (finfo.cls.name, nm)] = lit
+        cache[finfo.qual] = out
+        return dict(out)
+
     def run(self):
-        st = State(env=dict(self.env0))
+        env = self.const_env(self.finfo)
+        env.update(self.env0)
+        st = State(env=env)
         out = []
         self._stack = [self.finfo]
         for s, status in self.block(self.finfo.node.body, st, []):
@@ -332,54 +376,236 @@ class Enumerator:
                 return a.value in [e.value for e in b.elts]
         return None
 
-    def branch(self, test, st, line=None):
-        """Yield (state, truth) for each primitive short-circuit outcome."""
+    def branch(self, test, st, line=None, substituted=False):
+        """Yield (state, truth) for each primitive short-circuit outcome.
+
+        truth is a bool, or a ('raise', ...) status tuple when evaluating the
+        test raises on that path (inlined callee).  With substituted=True
+        the test has already been substituted with the environment."""
         if line is None:
             line = getattr(test, 'lineno', 0)
         if isinstance(test, ast.UnaryOp) and isinstance(test.op, ast.Not):
-            for s, t in self.branch(test.operand, st, line):
-                yield s, (not t)
+            for s, t in self.branch(test.operand, st, line, substituted):
+                yield s, (t if isinstance(t, tuple) else (not t))
             return
         if isinstance(test, ast.BoolOp):
             first, rest = test.values[0], test.values[1:]
             is_and = isinstance(test.op, ast.And)
-            for s, t in self.branch(first, st, line):
-                if is_and != t or not rest:
-                    # short circuit (and/False, or/True) or last operand
+            for s, t in self.branch(first, st, line, substituted):
+                if isinstance(t, tuple) or is_and != t or not rest:
+                    # raise, short circuit (and/False, or/True), last operand
                     yield s, t
                 else:
                     nxt = rest[0] if len(rest) == 1 else ast.BoolOp(
                         op=test.op, values=rest)
-                    yield from self.branch(nxt, s, line)
+                    yield from self.branch(nxt, s, line, substituted)
+            return
+        if isinstance(test, ast.IfExp):
+            for s, t in self.branch(test.test, st, line, substituted):
+                if isinstance(t, tuple):
+                    yield s, t
+                else:
+                    yield from self.branch(test.body if t else test.orelse,
+                                           s, line, substituted)
             return
         # primitive: substitute locals (and tracked attributes)
-        prim = subst(test, st.env)
-        if isinstance(prim, (ast.BoolOp,)) or (
+        prim = test if substituted else subst(test, st.env)
+        if isinstance(prim, (ast.BoolOp, ast.IfExp)) or (
                 isinstance(prim, ast.UnaryOp)
                 and isinstance(prim.op, ast.Not)):
             # a local bound to a boolean expression: split it too
-            yield from self._branch_substituted(prim, st, line)
+            yield from self.branch(prim, st, line, True)
             return
+        if is_sym(prim) and isinstance(self.defs.get(prim.id), (
+                ast.Compare, ast.BoolOp, ast.IfExp)) or (
+                is_sym(prim) and isinstance(self.defs.get(prim.id),
+                                            ast.UnaryOp)
+                and isinstance(self.defs[prim.id].op, ast.Not)) or (
+                is_sym(prim) and self._quantifier(self.defs.get(prim.id))):
+            # a value computed earlier (local, inlined helper result) whose
+            # structure decides the branch
+            yield from self.branch(self.defs[prim.id], st, line, True)
+            return
+        q = self._quantifier(prim)
+        if q is not None:
+            yield from self._branch_quant(q, prim, st, line)
+            return
+        mq = self._membership(prim)
+        if mq is not None:
+            neg, anyq = mq
+            for s, t in self._branch_quant(('any', anyq.args[0]), anyq, st,
+                                           line):
+                yield s, (t if isinstance(t, tuple) else (t != neg))
+            return
+        if self.inline is not None and len(self._stack) <= self.max_depth:
+            done = False
+            for s, e2, rs in self._inline_in_test(prim, st, line):
+                done = True
+                if rs is not None:
+                    yield s, rs
+                elif e2 is prim:
+                    yield from self._branch_prim(prim, s, line)
+                else:
+                    yield from self.branch(e2, s, line, True)
+            if done:
+                return
         yield from self._branch_prim(prim, st, line)
 
-    def _branch_substituted(self, prim, st, line):
-        # prim is already substituted; split without substituting again
-        if isinstance(prim, ast.UnaryOp) and isinstance(prim.op, ast.Not):
-            for s, t in self._branch_substituted(prim.operand, st, line):
-                yield s, (not t)
+    def _inline_target(self, call):
+        if not isinstance(call, ast.Call) or self.inline is None:
+            return None
+        callee = self.inline(call, self._stack[-1])
+        if callee is None or callee in self._stack:
+            return None
+        return callee
+
+    def _inline_in_test(self, prim, st, line):
+        """Inline a helper called as the test itself or as one operand of a
+        comparison.  Yields (state, new test, raise status); nothing when
+        there is nothing to inline."""
+        if isinstance(prim, ast.Call):
+            callee = self._inline_target(prim)
+            if callee is not None:
+                for s, rv, rs in self._inline(prim, callee, st, []):
+                    yield s, rv, rs
             return
-        if isinstance(prim, ast.BoolOp):
-            first, rest = prim.values[0], prim.values[1:]
-            is_and = isinstance(prim.op, ast.And)
-            for s, t in self._branch_substituted(first, st, line):
-                if is_and != t or not rest:
-                    yield s, t
+        if isinstance(prim, ast.Compare) and len(prim.ops) == 1:
+            for side in ('left', 'right'):
+                operand = prim.left if side == 'left' else \
+                    prim.comparators[0]
+                callee = self._inline_target(operand)
+                if callee is None:
+                    continue
+                for s, rv, rs in self._inline(operand, callee, st, []):
+                    if rs is not None:
+                        yield s, None, rs
+                        continue
+                    new = ast.Compare(
+                        left=rv if side == 'left' else prim.left,
+                        ops=prim.ops,
+                        comparators=[rv] if side == 'right'
+                        else prim.comparators)
+                    yield s, ast.copy_location(new, prim), None
+                return
+
+    def _quantifier(self, prim):
+        """('any'|'all', comprehension) for any(<one-generator comp>)."""
+        if isinstance(prim, ast.Call) and isinstance(prim.func, ast.Name) \
+                and prim.func.id in ('any', 'all') and len(prim.args) == 1 \
+                and not prim.keywords and isinstance(
+                    prim.args[0], (ast.GeneratorExp, ast.ListComp)) and len(
+                        prim.args[0].generators) == 1 and not \
+                prim.args[0].generators[0].is_async and self.quantifiers:
+            if self.prog.resolve(self._stack[-1].module, prim.func) == \
+                    'builtin:' + prim.func.id:
+                return prim.func.id, prim.args[0]
+        return None
+
+    def _as_comprehension(self, e, depth=4):
+        """A one-generator comprehension denoting the elements of e:
+        e itself, a symbol defined as one, set()/list()/tuple()/frozenset()/
+        sorted()/iter() of one, or map(f, S)."""
+        if depth <= 0:
+            return None
+        if isinstance(e, ast.Name) and e.id in self.defs and isinstance(
+                self.defs[e.id], ast.AST):
+            return self._as_comprehension(self.defs[e.id], depth - 1)
+        if isinstance(e, (ast.ListComp, ast.SetComp, ast.GeneratorExp)):
+            if len(e.generators) == 1 and not e.generators[0].is_async:
+                return e
+            return None
+        if isinstance(e, ast.Call) and isinstance(e.func, ast.Name) and \
+                not e.keywords:
+            if e.func.id in ('set', 'list', 'tuple', 'frozenset', 'sorted',
+                             'iter') and len(e.args) == 1:
+                return self._as_comprehension(e.args[0], depth - 1)
+            if e.func.id == 'map' and len(e.args) == 2:
+                v = ast.Name(id='_mx', ctx=ast.Load())
+                return ast.GeneratorExp(
+                    elt=ast.Call(func=e.args[0], args=[v], keywords=[]),
+                    generators=[ast.comprehension(
+                        target=ast.Name(id='_mx', ctx=ast.Store()),
+                        iter=e.args[1], ifs=[], is_async=0)])
+        return None
+
+    def _membership(self, prim):
+        """`x in <comprehension>` as any(x == elt for ...)."""
+        if not self.quantifiers or not isinstance(prim, ast.Compare) or \
+                len(prim.ops) != 1 or not isinstance(prim.ops[0],
+                                                     (ast.In, ast.NotIn)):
+            return None
+        comp = self._as_comprehension(prim.comparators[0])
+        if comp is None:
+            return None
+        g = comp.generators[0]
+        bound = {n.id for n in ast.walk(g.target) if isinstance(n, ast.Name)}
+        if any(isinstance(n, ast.Name) and n.id in bound
+               for n in ast.walk(prim.left)):
+            return None
+        eq = ast.Compare(left=prim.left, ops=[ast.Eq()],
+                         comparators=[comp.elt])
+        gen = ast.GeneratorExp(elt=eq, generators=comp.generators)
+        call = ast.Call(func=ast.Name(id='any', ctx=ast.Load()), args=[gen],
+                        keywords=[])
+        ast.copy_location(call, prim)
+        ast.fix_missing_locations(call)
+        return isinstance(prim.ops[0], ast.NotIn), call
+
+    def _branch_quant(self, q, prim, st, line):
+        """any()/all() over a generator as the loop it abbreviates (0 and 1
+        iterations, like every other loop)."""
+        fn, comp = q
+        g = comp.generators[0]
+        s0 = st.fork()
+        it = g.iter
+        if has_call(it):
+            for c in reversed([n for n in ast.walk(it)
+                               if isinstance(n, ast.Call)]):
+                self._ev(s0, 'call', c, line)
+                self._invalidate_call(s0, c)
+        self._ev(s0, 'iter', it, line)
+        itk = key_of(subst(it, {}, s0.attrs) if (self.track_attrs
+                                                  and s0.attrs) else it)
+        known = s0.facts.get(itk)
+        ct = const_truth(it)
+        if ct is not None:
+            known = ct
+        if 0 in self.loop_iters and known is not True:
+            sz = s0.fork()
+            sz.conds.append(Cond(it, False, line, 'loop', self.frame))
+            sz.facts[itk] = False
+            yield sz, fn == 'all'
+        if 1 in self.loop_iters and known is not False:
+            s1 = s0.fork()
+            s1.conds.append(Cond(it, True, line, 'loop', self.frame))
+            s1.facts[itk] = True
+            elem = self.fresh(('elem', it), 'e')
+            bound = [n.id for n in ast.walk(g.target)
+                     if isinstance(n, ast.Name)]
+            saved = {b: s1.env.get(b) for b in bound}
+            self._assign_target(g.target, elem, s1, line)
+            if g.ifs:
+                guard = g.ifs[0] if len(g.ifs) == 1 else ast.BoolOp(
+                    op=ast.And(), values=list(g.ifs))
+                if fn == 'any':
+                    body = ast.BoolOp(op=ast.And(), values=[guard, comp.elt])
                 else:
-                    nxt = rest[0] if len(rest) == 1 else ast.BoolOp(
-                        op=prim.op, values=rest)
-                    yield from self._branch_substituted(nxt, s, line)
-            return
-        yield from self._branch_prim(prim, st, line)
+                    body = ast.BoolOp(op=ast.Or(), values=[
+                        ast.UnaryOp(op=ast.Not(), operand=guard), comp.elt])
+            else:
+                body = comp.elt
+            for s2, t in self.branch(body, s1, line):
+                for b, old in saved.items():
+                    if old is None:
+                        s2.env.pop(b, None)
+                    else:
+                        s2.env[b] = old
+                if not isinstance(t, tuple) and t == (fn == 'all'):
+                    # not decided by this element: the scan goes on
+                    if s2 is s1:
+                        s2 = s1.fork()
+                    self._ev(s2, 'loopdone', it, line)
+                yield s2, t
 
     def _branch_prim(self, prim, st, line):
         prim, flip = self._norm_test(prim)
@@ -479,6 +705,48 @@ class Enumerator:
         (unless inlined) fresh symbols.
         """
         v = subst(value, st.env)
+        if isinstance(v, ast.IfExp):
+            # a conditional expression is the branch it abbreviates
+            for s, t in self.branch(v.test, st, getattr(value, 'lineno', 0),
+                                    True):
+                if isinstance(t, tuple):
+                    yield s, None, t
+                    continue
+                yield from self._eval_substituted(v.body if t else v.orelse,
+                                                  s, handlers, value)
+            return
+        yield from self._eval_substituted(v, st, handlers, value)
+
+    def _eval_substituted(self, v, st, handlers, value):
+        if isinstance(v, ast.IfExp):
+            for s, t in self.branch(v.test, st, getattr(value, 'lineno', 0),
+                                    True):
+                if isinstance(t, tuple):
+                    yield s, None, t
+                    continue
+                yield from self._eval_substituted(v.body if t else v.orelse,
+                                                  s, handlers, value)
+            return
+        neg = False
+        inner = v
+        while isinstance(inner, ast.UnaryOp) and isinstance(inner.op,
+                                                            ast.Not):
+            neg = not neg
+            inner = inner.operand
+        q = self._quantifier(inner)
+        if q is not None:
+            for s, t in self._branch_quant(q, inner, st,
+                                           getattr(value, 'lineno', 0)):
+                if isinstance(t, tuple):
+                    yield s, None, t
+                else:
+                    yield s, ast.Constant(value=(t != neg)), None
+            return
+        if self.comps and isinstance(v, (ast.ListComp, ast.GeneratorExp,
+                                         ast.SetComp)) and len(
+                v.generators) == 1 and not v.generators[0].is_async:
+            yield from self._eval_comp(v, st, handlers, value)
+            return
         if not has_call(v):
             if isinstance(v, (ast.List, ast.Dict, ast.Set)):
                 # a mutable literal may be mutated later through its name:
@@ -499,9 +767,67 @@ class Enumerator:
         for c in reversed(calls):
             self._ev(s, 'call', c, getattr(value, 'lineno', 0), raw=value)
             self._invalidate_call(s, c)
+        if self._pure_expr(v):
+            # calls of pure builtins on immutable results keep their
+            # structure (`size = len(pattern)` stays `len(pattern)`)
+            yield s, v, None
+            return
         sym = self.fresh(v)
         s.events[-1].sym = sym.id if calls else None
         yield s, sym, None
+
+    def _eval_comp(self, v, st, handlers, value):
+        """A one-generator comprehension as the accumulating loop it
+        abbreviates; the result symbol is still defined as the
+        comprehension (expand() gives it back)."""
+        line = getattr(value, 'lineno', 0)
+        g = v.generators[0]
+        acc = self.fresh(v, 'm')
+        app = ast.Expr(value=ast.Call(
+            func=ast.Attribute(value=ast.Name(id=acc.id, ctx=ast.Load()),
+                               attr='add' if isinstance(v, ast.SetComp)
+                               else 'append', ctx=ast.Load()),
+            args=[v.elt], keywords=[]))
+        body = [app]
+        for c in reversed(g.ifs):
+            body = [ast.If(test=c, body=body, orelse=[])]
+        loop = ast.For(target=g.target, iter=g.iter, body=body, orelse=[])
+        loop.lineno = loop.end_lineno = line
+        loop.col_offset = loop.end_col_offset = 0
+        ast.fix_missing_locations(loop)
+        bound = [n.id for n in ast.walk(g.target) if isinstance(n, ast.Name)]
+        saved = {b: st.env.get(b) for b in bound}
+        for s, status in self._for(loop, st, handlers):
+            for b, old in saved.items():
+                if old is None:
+                    s.env.pop(b, None)
+                else:
+                    s.env[b] = old
+            if status[0] == 'raise':
+                yield s, None, status
+            else:
+                yield s, acc, None
+
+    PURE_BUILTINS = ('len', 'isinstance', 'bool', 'str', 'int', 'float',
+                     'tuple', 'frozenset', 'abs', 'repr', 'callable',
+                     'issubclass', 'hasattr')
+
+    def _pure_expr(self, v):
+        """Only pure builtins are called and nothing else has an effect."""
+        for n in ast.walk(v):
+            if isinstance(n, (ast.Yield, ast.YieldFrom, ast.Await,
+                              ast.ListComp, ast.SetComp, ast.DictComp,
+                              ast.GeneratorExp, ast.NamedExpr, ast.Lambda)):
+                return False
+            if isinstance(n, ast.Call):
+                if not (isinstance(n.func, ast.Name)
+                        and n.func.id in self.PURE_BUILTINS
+                        and not n.keywords):
+                    return False
+                if self.prog.resolve(self._stack[-1].module, n.func) != \
+                        'builtin:' + n.func.id:
+                    return False
+        return True
 
     def _bind_args(self, call, callee):
         a = callee.node.args
@@ -563,7 +889,9 @@ class Enumerator:
         self._ev(s0, 'call', call, getattr(call, 'lineno', 0), raw=call)
         s0.events[-1].sym = 'inlined:' + callee.qual
         saved_env = s0.env
-        s0.env = env
+        cenv = self.const_env(callee)
+        cenv.update(env)
+        s0.env = env = cenv
         self._stack.append(callee)
         try:
             results = list(self.block(callee.node.body, s0, []))
@@ -589,13 +917,25 @@ class Enumerator:
                 for t, v in zip(target.elts, val.elts):
                     self._assign_target(t, v, st, line)
             else:
+                star = [i for i, t in enumerate(target.elts)
+                        if isinstance(t, ast.Starred)]
+                n = len(target.elts)
                 for i, t in enumerate(target.elts):
+                    if star and i == star[0]:
+                        # a, *rest, z = val  ->  rest = val[i:-(n-i-1)]
+                        hi = None if i == n - 1 else ast.Constant(
+                            value=-(n - i - 1))
+                        sl = ast.Slice(lower=ast.Constant(value=i) if i
+                                       else None, upper=hi, step=None)
+                    elif star and i > star[0]:
+                        sl = ast.Constant(value=-(n - i))
+                    else:
+                        sl = ast.Constant(value=i)
                     self._assign_target(
-                        t, ast.Subscript(value=val,
-                                         slice=ast.Constant(value=i),
+                        t, ast.Subscript(value=val, slice=sl,
                                          ctx=ast.Load()), st, line)
         elif isinstance(target, ast.Starred):
-            self._assign_target(target.value, self.fresh(val), st, line)
+            self._assign_target(target.value, val, st, line)
         else:
             tgt = subst(target, st.env)
             self._ev(st, 'store', tgt, line, value=val, raw=target)
@@ -609,6 +949,40 @@ class Enumerator:
                 if isinstance(tgt, ast.Attribute) and self.track_attrs:
                     st.attrs[ptxt] = val
 
+    def _desugar_yield_from(self, x, line):
+        """`yield from [E] * n`, `yield from (E for v in it if c)` and
+        `yield from [E1, E2]` as the equivalent loops of plain yields."""
+        def y(e):
+            return ast.fix_missing_locations(ast.copy_location(
+                ast.Expr(value=ast.Yield(value=e)), x))
+
+        def loc(n):
+            n.lineno = n.end_lineno = line
+            n.col_offset = n.end_col_offset = 0
+            return ast.fix_missing_locations(n)
+        if isinstance(x, ast.BinOp) and isinstance(x.op, ast.Mult):
+            for seq, cnt in ((x.left, x.right), (x.right, x.left)):
+                if isinstance(seq, (ast.List, ast.Tuple)) and len(
+                        seq.elts) == 1 and not isinstance(
+                            seq.elts[0], ast.Starred):
+                    it = ast.Call(func=ast.Name(id='range', ctx=ast.Load()),
+                                  args=[cnt], keywords=[])
+                    return [loc(ast.For(
+                        target=ast.Name(id='_yf', ctx=ast.Store()), iter=it,
+                        body=[y(seq.elts[0])], orelse=[]))]
+        if isinstance(x, (ast.GeneratorExp, ast.ListComp)) and len(
+                x.generators) == 1 and not x.generators[0].is_async:
+            g = x.generators[0]
+            body = [y(x.elt)]
+            for c in reversed(g.ifs):
+                body = [ast.If(test=c, body=body, orelse=[])]
+            return [loc(ast.For(target=g.target, iter=g.iter, body=body,
+                                orelse=[]))]
+        if isinstance(x, (ast.List, ast.Tuple)) and not any(
+                isinstance(e, ast.Starred) for e in x.elts):
+            return [loc(y(e)) for e in x.elts]
+        return None
+
     def _route_raise(self, st, status, handlers):
         """A raise status inside try bodies: find a matching handler."""
         yield st, status
@@ -619,6 +993,11 @@ class Enumerator:
             if isinstance(node.value, ast.Constant):
                 yield st, ('next',)
                 return
+            if isinstance(node.value, ast.YieldFrom):
+                des = self._desugar_yield_from(node.value.value, line)
+                if des is not None:
+                    yield from self.block(des, st, handlers)
+                    return
             if isinstance(node.value, (ast.Yield, ast.YieldFrom)):
                 s = st.fork()
                 v = subst(node.value.value, s.env) if node.value.value \
@@ -681,6 +1060,16 @@ class Enumerator:
             if node.value is None:
                 yield st, ('return', None, line, self.frame)
                 return
+            if self.split_returns and len(self._stack) == 1 and not \
+                    isinstance(node.value, ast.Constant):
+                # only the truth of the result matters to the caller
+                for s, t in self.branch(node.value, st, line):
+                    if isinstance(t, tuple):
+                        yield s, t
+                    else:
+                        yield s, ('return', ast.Constant(value=t), line,
+                                  self.frame)
+                return
             for s, v, rs in self.eval_value(node.value, st, handlers):
                 if rs is not None:
                     yield s, rs
@@ -698,6 +1087,9 @@ class Enumerator:
             return
         if isinstance(node, ast.If):
             for s, t in self.branch(node.test, st, line):
+                if isinstance(t, tuple):
+                    yield s, t
+                    continue
                 body = node.body if t else node.orelse
                 yield from self.block(body, s, handlers)
             return
@@ -745,7 +1137,9 @@ class Enumerator:
             return
         if isinstance(node, ast.Assert):
             for s, t in self.branch(node.test, st, line):
-                if t:
+                if isinstance(t, tuple):
+                    yield s, t
+                elif t:
                     yield s, ('next',)
                 else:
                     yield s, ('raise', ast.Call(
@@ -812,7 +1206,10 @@ class Enumerator:
             for s, status in self.block(node.body, s1, handlers):
                 if status[0] in ('next', 'continue'):
                     # leave the loop after one iteration; names assigned in
-                    # the body keep their one-iteration values
+                    # the body keep their one-iteration values.  The event
+                    # says that the body completed: further elements would
+                    # be visited.
+                    self._ev(s, 'loopdone', it, line)
                     yield from self.block(node.orelse, s, handlers)
                 elif status[0] == 'break':
                     yield s, ('next',)
@@ -821,11 +1218,15 @@ class Enumerator:
 
     def _while(self, node, st, handlers):
         for s, t in self.branch(node.test, st, node.lineno):
+            if isinstance(t, tuple):
+                yield s, t
+                continue
             if not t:
                 yield from self.block(node.orelse, s, handlers)
                 continue
             for s2, status in self.block(node.body, s, handlers):
                 if status[0] in ('next', 'continue'):
+                    self._ev(s2, 'loopdone', node.test, node.lineno)
                     ct = const_truth(node.test)
                     if ct is True:
                         # `while True` left only through break/return
